@@ -293,14 +293,12 @@ Definition csnprintf (size : N) (fmt : list N) (args : list parg) : option (list
 (* ------------------------------------------------------------------------------------ *)
 (* tun.c                                                                                  *)
 
-(* the netmask computed by tun_setip:
-       netmask = 0; for (i = 0; i < netbits; i++) netmask = (netmask << 1) | 1;
-       netmask <<= (32 - netbits);
-   [netmask] is a (signed) int: for every netbits >= 1 the last shift overflows int and for
-   netbits outside 1..32 the shift count is outside 0..31, which ISO C leaves undefined.  The
-   theorems are therefore proved for an ARBITRARY function  mask_of : netbits -> word.
-   [mask_x86] is what gcc -O0 on x86-64 computes (two's-complement wrap, shift count taken
-   modulo 32 by the shl instruction); it is the instance used by the correspondence run. *)
+(* the netmask computed by tun_setip (netbits outside 0..32 is refused since the repair of the
+   signed-shift defect):
+       netmask = netbits ? 0xFFFFFFFFU << (32 - netbits) : 0;
+   The theorems are proved for an ARBITRARY function  mask_of : netbits -> word.
+   [mask_x86] (written for the earlier shift loop) agrees with the formula on 0..32; it is the
+   instance used by the correspondence run. *)
 Definition mask_x86 (netbits : Z) : N :=
   let ones := if (netbits <=? 0)%Z then 0
               else if (32 <=? netbits)%Z then 4294967295
@@ -345,6 +343,7 @@ Definition setip_checks (g : setip_cfg) (ip other_ip : list N) : bool :=
 
 Definition tun_setip_cmd_g (g : setip_cfg) (mask_of : Z -> N) (ifname ip other_ip : list N) (netbits : Z)
   : option (list N) :=
+  if (netbits <? 0)%Z || (32 <? netbits)%Z then None else   (* "Invalid netmask": return 1 *)
   if setip_checks g ip other_ip
   then csnprintf src_SETIP_CMDLINE_SIZE src_SETIP_FMT
                  [PS ifname; PS (setip_arg (arg1_other g) ip other_ip);
